@@ -184,6 +184,8 @@ def _member_obs(m, case, term):
     inh = {}
     if case.get("lo"):
         inh["ranges"] = bool(m._useStrictRange) and _vec(m._strictMin) == case["lo"] and _vec(m._strictMax) == case["hi"]
+        # ... imposed the way the ensemble was told to impose them (tight / clip), in every mode
+        inh["range_mode"] = [m._useTightRange, m._useClipRange] == list(case.get("rmode") or [None, None])
     if case.get("maxfun") is not None:
         inh["maxfun"] = m._maxfun == case["maxfun"]
     if case.get("maxiter") is not None:
@@ -244,7 +246,10 @@ def run_ensemble(case, mode, mapkind):
         else:
             s.SetNestedSolver(_nested(case["nested"]))
         if case.get("lo"):
-            s.SetStrictRanges(list(case["lo"]), list(case["hi"]))
+            if case.get("rmode"):      # ranges imposed together with the constraints (tight / clip=True): handed on to every member in both modes
+                s.SetStrictRanges(list(case["lo"]), list(case["hi"]), tight=case["rmode"][0], clip=case["rmode"][1])
+            else:
+                s.SetStrictRanges(list(case["lo"]), list(case["hi"]))
         s.SetEvaluationLimits(case.get("maxiter"), case.get("maxfun"))
         if term is not None:
             s.SetTermination(term)
